@@ -341,6 +341,12 @@ def r_no_live_escape(ctx, repo):
                     ok = True
             elif isinstance(par, ast.Expr):
                 ok = True
+            elif isinstance(par, (ast.List, ast.Tuple, ast.Set)) and any(e is n for e in par.elts):
+                # wrapped into a fresh display that only serves as a local temporary: bound to a local name or iterated
+                pp = getattr(par, '_parent', None)
+                ok = (isinstance(pp, ast.Assign) and all(isinstance(t, ast.Name) for t in pp.targets)) or \
+                     (isinstance(pp, (ast.For, ast.comprehension)) and pp.iter is par) or \
+                     (isinstance(pp, ast.IfExp) and isinstance(getattr(pp, '_parent', None), (ast.For, ast.Assign)))
             elif isinstance(par, ast.Starred) or (isinstance(par, ast.Dict) and n in par.values
                                                   and par.keys[par.values.index(n)] is None):
                 ok = True        # unpacked into a new display
